@@ -72,7 +72,7 @@ class Models:
         self.spec_builtins = {
             "old": self.spec_old, "forall": self.spec_forall, "exists": self.spec_exists,
             "implies": self.spec_implies, "iff": self.spec_iff, "fresh_value": self.spec_fresh,
-            "with_field": self.spec_with_field,
+            "with_field": self.spec_with_field, "let": self.spec_let,
         }
         self.modules = {}          # "module.attr" -> value or handler
         self.builtin_handlers = {}
@@ -231,13 +231,13 @@ class Models:
             sb = eng.as_set(b, st)
             sb = V(a.kind, sb.term)
             if isinstance(op, ast.BitOr):
-                yield st, V(a.kind, z3.SetUnion(a.term, sb.term))
+                yield st, V(a.kind, a.kind.union(st, a.term, sb.term))
                 return
             if isinstance(op, ast.BitAnd):
-                yield st, V(a.kind, z3.SetIntersect(a.term, sb.term))
+                yield st, V(a.kind, a.kind.inter(st, a.term, sb.term))
                 return
             if isinstance(op, ast.Sub):
-                yield st, V(a.kind, z3.SetDifference(a.term, sb.term))
+                yield st, V(a.kind, a.kind.diff(st, a.term, sb.term))
                 return
         raise Untranslatable(f"operator {type(op).__name__} on {a!r}, {b!r}", node)
 
@@ -268,8 +268,8 @@ class Models:
                      ast.Gt: lt(b.term, a.term), ast.GtE: le(b.term, a.term)}[type(op)]
                 yield st, t
             elif isinstance(a, V) and isinstance(b, V) and isinstance(a.kind, SetK) and isinstance(b.kind, SetK):
-                sub = z3.IsSubset(a.term, b.term)
-                sup = z3.IsSubset(b.term, a.term)
+                sub = a.kind.subset(a.term, b.term)
+                sup = a.kind.subset(b.term, a.term)
                 t = {ast.Lt: z3.And(sub, a.term != b.term), ast.LtE: sub, ast.Gt: z3.And(sup, a.term != b.term), ast.GtE: sup}[type(op)]
                 yield st, t
             else:
@@ -525,14 +525,15 @@ class Models:
         if mkey in st.memo:
             return st.memo[mkey]
         S = z3.Const(fresh_name("setof"), z3.ArraySort(es, z3.BoolSort()))
-        idx = z3.Function(fresh_name("idxof"), es, z3.IntSort())
+        v = V(v.kind, v.kind.as_const(st, v.term))
         i = z3.Const(fresh_name("i"), z3.IntSort())
         x = z3.Const(fresh_name("x"), es)
         n = v.kind.len(v.term)
         at = lambda q: v.kind.at(v.term, q)
         st.assume(z3.ForAll([i], z3.Implies(z3.And(0 <= i, i < n), z3.Select(S, at(i))), patterns=[at(i)]))
-        st.assume(z3.ForAll([x], z3.Implies(z3.Select(S, x), z3.And(0 <= idx(x), idx(x) < n, at(idx(x)) == x)),
-                            patterns=[z3.Select(S, x)]))
+        # direct link with list membership (a consequence of the two facts above and of the mem axioms)
+        st.assume(z3.ForAll([x], z3.Select(S, x) == v.kind.contains(v.term, x), patterns=[z3.Select(S, x)]))
+        st.assume(z3.ForAll([x], z3.Select(S, x) == v.kind.contains(v.term, x), patterns=[v.kind.contains(v.term, x)]))
         st.memo[mkey] = V(SetK(elem), S)
         return st.memo[mkey]
 
@@ -804,30 +805,30 @@ class Models:
     def set_update(self, eng, s, args, kw, st, node):
         t = s.term
         for a in args:
-            t = z3.SetUnion(t, V(s.kind, eng.as_set(a, st).term).term)
+            t = s.kind.union(st, t, eng.as_set(a, st).term)
         for st1 in self.write_back(eng, node, V(s.kind, t), st):
             yield st1, NONE
 
     def set_union(self, eng, s, args, kw, st, node):
         t = s.term
         for a in args:
-            t = z3.SetUnion(t, eng.as_set(a, st).term)
+            t = s.kind.union(st, t, eng.as_set(a, st).term)
         yield st, V(s.kind, t)
 
     def set_intersection(self, eng, s, args, kw, st, node):
         t = s.term
         for a in args:
-            t = z3.SetIntersect(t, eng.as_set(a, st).term)
+            t = s.kind.inter(st, t, eng.as_set(a, st).term)
         yield st, V(s.kind, t)
 
     def set_difference(self, eng, s, args, kw, st, node):
         t = s.term
         for a in args:
-            t = z3.SetDifference(t, eng.as_set(a, st).term)
+            t = s.kind.diff(st, t, eng.as_set(a, st).term)
         yield st, V(s.kind, t)
 
     def set_issubset(self, eng, s, args, kw, st, node):
-        yield st, V(BOOL, z3.IsSubset(s.term, eng.as_set(args[0], st).term))
+        yield st, V(BOOL, s.kind.subset(s.term, eng.as_set(args[0], st).term))
 
     def set_copy(self, eng, s, args, kw, st, node):
         yield st, s
@@ -1064,8 +1065,15 @@ class Models:
             if isinstance(k, SetK):
                 c = card_fn(k.elem.sort())
                 self.used_axioms.add(("card", k.elem.sort()))
-                st.assume(c(a.term) >= 0)
-                st.assume((c(a.term) == 0) == (a.term == z3.EmptySet(k.elem.sort())))
+                mkey = ("card", a.term.get_id())
+                if mkey not in st.memo:
+                    st.assume(c(a.term) >= 0)
+                    # emptiness with an explicit witness instead of extensional equality with the empty set
+                    w = z3.Const(fresh_name("wit"), k.elem.sort())
+                    x = z3.Const(fresh_name("x"), k.elem.sort())
+                    st.assume(z3.Implies(c(a.term) > 0, z3.Select(a.term, w)))
+                    st.assume(z3.Implies(c(a.term) == 0, z3.ForAll([x], z3.Not(z3.Select(a.term, x)))))
+                    st.memo[mkey] = True
                 yield st, V(INT, c(a.term))
                 return
             if isinstance(k, Map):
@@ -1470,10 +1478,11 @@ class Models:
         dom_expr, lam = e.args[0], e.args[1]
         if not isinstance(lam, ast.Lambda):
             raise SpecError("quantifier body must be a lambda")
-        doms = list(eng.ev(dom_expr, st))
-        if len(doms) != 1:
-            raise SpecError("quantifier domain must be pure")
-        st1, dom = doms[0]
+        doms = list(eng.ev(dom_expr, st)) if not isinstance(dom_expr, (ast.IfExp, ast.BoolOp, ast.Call, ast.Attribute)) else []
+        if len(doms) == 1:
+            st1, dom = doms[0]
+        else:
+            st1, dom = st, eng.ev_merged(dom_expr, st)
         names = [a.arg for a in lam.args.args]
         if isinstance(dom, (VList, VTuple)) and not (dom.items and isinstance(dom.items[0], Kind)):
             # finite python-level domain: conjunction / disjunction
@@ -1541,6 +1550,18 @@ class Models:
         a = eng.ev_merged(e.args[0], st, want_bool=True)
         b = eng.ev_merged(e.args[1], st, want_bool=True)
         yield st, V(BOOL, a.term == b.term)
+
+    def spec_let(self, eng, e, st):
+        """let(value, lambda v: body): evaluate value once and bind it."""
+        v = eng.ev_merged(e.args[0], st)
+        lam = e.args[1]
+        frame = {"__closure__": st.frames[-1], lam.args.args[0].arg: v}
+        st.frames.append(frame)
+        try:
+            r = eng.ev_merged(lam.body, st)
+        finally:
+            st.frames.pop()
+        yield st, r
 
     def spec_with_field(self, eng, e, st):
         """with_field(obj, "field", value, lambda: expr): value of expr in the state where obj.field := value."""
